@@ -452,14 +452,12 @@ def pReshape (cfg : Config) (mv : Nat) (invs : List (RpInvReq R)) (cs : List Con
     | [] => aNext { cfg := cfg, mv := mv, kind := .reshape } cs
     | _ :: _ => .txn .getRp (aReshapeRps cfg mv invs [] cs)
 
-/-! ### DELETE /allocations/{consumer}: read the rows, delete them, then delete the consumer in a
-separate transaction (rows are identified by value here; the code deletes by row id) -/
-
-def tAllocDeleteC (consumer : Nat) (db : DB R) : DB R × P R :=
-  (deleteConsumersIfNoAllocs db [consumer], .done r204)
+/-! ### DELETE /allocations/{consumer}: read the rows, then delete them and the consumer in one
+transaction (rows are identified by value here; the code deletes by row id) -/
 
 def tAllocDeleteW (rows : List AllocRow) (consumer : Nat) (db : DB R) : DB R × P R :=
-  ({ db with allocs := db.allocs.filter (fun a => !rows.contains a) }, .txn .cleanup (tAllocDeleteC consumer))
+  (deleteConsumersIfNoAllocs { db with allocs := db.allocs.filter (fun a => !rows.contains a) } [consumer],
+   .done r204)
 
 def tAllocDeleteR (consumer : Nat) (db : DB R) : DB R × P R :=
   -- `get_all_by_consumer_id` joins allocations with providers and the consumer record
